@@ -78,7 +78,7 @@ def float_solver(chk: Check, n):
     for i in range(n):
         alt, ev, ut = CELLS[i % len(CELLS)]
         ratio = rng.choice([1, 2, 0.5, 3.5, 0.1, 10, 1 / 3, 7])
-        var, mean = rng.uniform(0.5, 9), rng.uniform(1, 10)
+        var, mean = rng.uniform(0.5, 9), rng.uniform(1, 10) * (-1 if i % 5 == 4 else 1)     # also negative sample means
         vx, rho = rng.uniform(0.5, 4), rng.uniform(-0.9, 0.9)
         with_cov = i % 3 == 0
         data = A(5000, {"x": mean, "c": 1.0}, {"x": var, "c": vx}, {("c", "x"): rho * math.sqrt(var * vx)})
@@ -101,6 +101,27 @@ def float_solver(chk: Check, n):
             res = []
         if res and [r.n_obs for r in res] != list(ns):
             chk.fail("rows are not one per n_obs in input order", dict(input=inp, rows=[r.n_obs for r in res]))
+        # the REQUEST decides what is solved: an effect size left configured on the metric is ignored when the effect
+        # size is asked for
+        try:
+            res2 = tt.Mean(*cols, n_obs=ns, effect_size=sign * 0.123, **kw).solve_power(data, "effect_size")
+            if [(r.n_obs, r.effect_size) for r in res2] != [(r.n_obs, r.effect_size) for r in res]:
+                chk.fail("solving for the effect size gives a different answer when an effect size is configured on the "
+                         "metric", dict(input=inp, n_obs=ns, with_configured=[r.effect_size for r in res2],
+                                        without=[r.effect_size for r in res]))
+        except Exception as ex:  # noqa: BLE001
+            chk.fail("solve_power(…, 'effect_size') raised when an effect size is also configured on the metric",
+                     dict(input=inp, n_obs=ns, error=repr(ex)))
+        # one row per effect size x n_obs combination, effect sizes outer, n_obs inner, inputs echoed
+        es2 = (sign * 0.05 * math.sqrt(var), sign * 0.2 * math.sqrt(var))
+        try:
+            grid = tt.Mean(*cols, effect_size=es2, n_obs=ns, **kw).solve_power(data, "power")
+            want = [(e, n_) for e in es2 for n_ in ns]
+            if [(r.effect_size, r.n_obs) for r in grid] != want:
+                chk.fail("rows of the power grid are not effect size (outer) x n_obs (inner) in input order",
+                         dict(input=inp, got=[(r.effect_size, r.n_obs) for r in grid], expected=want))
+        except Exception as ex:  # noqa: BLE001
+            chk.fail("solve_power(…, 'power') raised on a grid", dict(input=inp, error=repr(ex)))
         for r in res:
             if (r.effect_size > 0) != (sign > 0):
                 chk.fail("sign of the solved effect does not follow the alternative",
@@ -111,7 +132,7 @@ def float_solver(chk: Check, n):
                          dict(input=inp, n_obs=r.n_obs, effect=r.effect_size, power_back=back.power))
             if abs(r.rel_effect_size * back.effect_size - r.effect_size * back.rel_effect_size) > 1e-9 * abs(r.effect_size):
                 chk.fail("absolute and relative effect are not related by the (adjusted) mean", dict(input=inp))
-            if abs(r.effect_size / r.rel_effect_size - mean) > 1e-9 * mean and not with_cov:
+            if abs(r.effect_size / r.rel_effect_size - mean) > 1e-9 * abs(mean) and not with_cov:
                 chk.fail("rel_effect_size != effect_size / mean", dict(input=inp, row=r._asdict()))
         # ---- solve for n_obs at several effects (designs needing more than ~4*max(r,1/r) observations)
         sd = math.sqrt(var)
